@@ -376,9 +376,17 @@ def tree_list(draw, Lmax=6):
 
 
 def build_tree(tdesc):
-    def rec(node):
-        return ptn.OpTreeNode([ptn.OpTreeEdge(oid, c, rec(child)) for oid, c, child in node['ch']], node['q'])
-    return ptn.OpTree(rec(tdesc['root']), tdesc['istart'])
+    # both public ways of assembling a node: children handed to the constructor, or attached one by one with `add_child`
+    # (deterministic choice from the descriptor, so that replays build the same objects)
+    def rec(node, depth):
+        edges = [ptn.OpTreeEdge(oid, c, rec(child, depth + 1)) for oid, c, child in node['ch']]
+        if (len(node['ch']) + depth + tdesc['istart']) % 2 == 0:
+            return ptn.OpTreeNode(edges, node['q'])
+        n = ptn.OpTreeNode([], node['q'])
+        for e in edges:
+            n.add_child(e)
+        return n
+    return ptn.OpTree(rec(tdesc['root'], 0), tdesc['istart'])
 
 
 def tree_height(node):
